@@ -191,7 +191,7 @@ class Ctx:
     # ---- finish ------------------------------------------------------------
     def finish(self):
         known = []
-        kf = os.path.join(VERIF, 'known_findings.json')
+        kf = os.path.join(VERIF, 'known_findings', self.pid + '.json')
         if os.path.exists(kf):
             known = [e for e in json.load(open(kf)).get('findings', []) if e.get('property') == self.pid
                      and e.get('status', 'open') == 'open']
